@@ -15,7 +15,8 @@ import sys
 import time
 
 ROOT = os.path.dirname(os.path.dirname(os.path.abspath(__file__)))
-REPO = "/repo"
+MAIN_REPO = "/repo"
+REPO = "/tmp/seedtest_repo"      # scratch worktree of /repo: the patches are never applied to /repo itself
 
 
 def sh(cmd, cwd=None, env=None, timeout=3000):
@@ -34,8 +35,10 @@ def main():
     tier = "thorough" if "--thorough" in sys.argv else "quick"
     sdir = os.path.join(ROOT, "seeded")
     dirs = args or sorted(os.path.join(sdir, d) for d in os.listdir(sdir) if os.path.isdir(os.path.join(sdir, d)))
-    if not clean():
-        print("/repo has uncommitted changes to tracked files; refusing to run")
+    sh(f"git -C {MAIN_REPO} worktree remove --force {REPO}")
+    rc, out = sh(f"git -C {MAIN_REPO} worktree add --detach {REPO} HEAD")
+    if rc != 0:
+        print("cannot create scratch worktree:", out)
         return 2
     results = {}
     respath = os.path.join(sdir, "RESULTS.json")
@@ -69,6 +72,7 @@ def main():
             for cp in meta.get("check_with", [prop]):
                 rc, out = sh(f"./check {cp} --tier {tier}", cwd=ROOT,
                              env=dict(os.environ, VERIF_SEED=os.environ.get("VERIF_SEED", "0"),
+                                      VERIF_REPO=REPO,
                                       VERIF_EVIDENCE_DIR="/tmp/seedtest_evidence", VERIF_REPLAY_DIR=os.path.join(d, "replays")))
                 res["check_rc"][cp] = rc
                 vl = [line for line in out.splitlines() if line.startswith("VIOLATION")]
@@ -85,6 +89,7 @@ def main():
               + (f"demo {res.get('demo_clean_rc')}->{res.get('demo_patched_rc')} baseline_green={res.get('baseline_green')}" if validate else "")
               + (" ERROR " + res["error"] if "error" in res else ""))
         json.dump(results, open(respath, "w"), indent=1)
+    sh(f"git -C {MAIN_REPO} worktree remove --force {REPO}")
     return 0
 
 
